@@ -23,6 +23,9 @@ def ClientEv : Ev → Prop
   | .connect _ => True
   | .item _ _ _ raw => isException raw = true
 
+instance (ev : Ev) : Decidable (ClientEv ev) := by
+  cases ev <;> unfold ClientEv <;> infer_instance
+
 theorem caught_of_exception {hs : List Handler} (h : Handler.exception ∈ hs) {c : Cls}
     (hc : isException c = true) : caught hs c = true := by
   unfold caught
@@ -745,7 +748,7 @@ theorem muxStep_inv (p : Params) (hg : GoodCfg p.cfg) (l : Loop) (h : MInv l) (e
             split
             · split
               · refine ⟨?_, ?_, h.nozombie⟩
-                · simp only [setConn_registered]
+                · simp only
                   rw [List.nodup_append]
                   refine ⟨h.nodup, by simp, ?_⟩
                   intro a ha b hb'
@@ -753,7 +756,7 @@ theorem muxStep_inv (p : Params) (hg : GoodCfg p.cfg) (l : Loop) (h : MInv l) (e
                   subst hb'
                   intro e; subst e; exact hnr ha
                 · intro j
-                  simp only [setConn_registered, List.mem_append, List.mem_singleton]
+                  simp only [List.mem_append, List.mem_singleton]
                   by_cases hij : i = j
                   · subst hij
                     rw [setConn_get_self _ i _ c (by simpa using hci)]
@@ -794,7 +797,7 @@ theorem muxStep_inv (p : Params) (hg : GoodCfg p.cfg) (l : Loop) (h : MInv l) (e
               rw [if_pos (caught_of_exception hg.muxReq hx)]
               refine ⟨by simpa using h.nodup.erase i, ?_, h.nozombie⟩
               intro j
-              simp only [setConn_registered]
+              simp only
               rw [h.nodup.mem_erase_iff]
               by_cases hij : i = j
               · subst hij
@@ -1007,7 +1010,6 @@ theorem step_witness (p : Params) (hg : GoodCfg p.cfg) (l : Loop) (ev : Ev) (hc 
       have hgone : gone = false := hstay it gone raw rfl
       subst hgone
       obtain ⟨hesc, hce⟩ := doRequest_connEvent c it raw hp
-      simp only at hesc hce
       simp only [evOn, if_true]
       unfold Served at hs ⊢
       unfold step
@@ -1024,11 +1026,11 @@ theorem step_witness (p : Params) (hg : GoodCfg p.cfg) (l : Loop) (ev : Ev) (hc 
         | none =>
           simp only [he, Option.isSome_none, Bool.false_eq_true, if_false] at hce
           simp only [setConn_get_self l i _ c hcw, hce, setConn_busy, setConn_zombie]
-          exact ⟨rfl, fun _ => hs⟩
+          exact ⟨trivial, fun _ => hs⟩
         | some e =>
           simp only [he, Option.isSome_some, if_true] at hce
           simp only [workerExit_conns, setConn_get_self l i _ c hcw, hce]
-          exact ⟨rfl, fun h => by simp at h⟩
+          exact ⟨trivial, fun h => by simp at h⟩
       | multiplex =>
         rw [hk] at hs
         simp only at hs ⊢
@@ -1039,7 +1041,7 @@ theorem step_witness (p : Params) (hg : GoodCfg p.cfg) (l : Loop) (ev : Ev) (hc 
         | none =>
           simp only [he, Option.isSome_none, Bool.false_eq_true, if_false] at hce
           simp only [setConn_get_self l i _ c hcw, hce, setConn_running, setConn_registered, setConn_zombie]
-          exact ⟨rfl, fun _ => hs⟩
+          exact ⟨trivial, fun _ => hs⟩
         | some e =>
           have hx := doRequest_esc_exc c it false raw hc e he
           simp only [he, Option.isSome_some, if_true] at hce
@@ -1049,7 +1051,7 @@ theorem step_witness (p : Params) (hg : GoodCfg p.cfg) (l : Loop) (ev : Ev) (hc 
   · have hev : evOn w ev c = c := by
       cases ev with
       | connect i => rfl
-      | item i it gone raw => simp only [evOn]; rw [if_neg hw]
+      | item i it gone raw => simp only [evOn]; exact if_neg hw
     rw [hev, step_frame p l ev w hw]
     refine ⟨hcw, fun _ => ?_⟩
     have hm := step_mem_frame p l ev w hw
